@@ -411,7 +411,7 @@ pub fn run(ctx: &Ctx) {
         Some(env) => {
             let n = ctx.tier.pick(48u32, 640u32);
             (0..shards).into_par_iter().for_each(|s| {
-                run_prop(ctx, &format!("e2e-{s}"), n / shards, history(), |h| check_e2e(ctx, &env, h, &format!("c12-{s}")));
+                vcore::ev::run_prop_shrink(ctx, &format!("e2e-{s}"), n / shards, 16, history(), |h| check_e2e(ctx, &env, h, &format!("c12-{s}")));
             });
         }
         None => {
